@@ -353,6 +353,8 @@ let run_case (x : sx) : Stdlib.String.t =
                   let fs = List.map fstep_of steps in
                   let ks = if List.exists is_filter steps then [] else List.map rstep_of steps in
                   let text = match getf "nodollar", getf "pad", ks with
+                    | _ when List.exists is_filter steps && getf "keyf" <> [] ->
+                        fchain_fun_path fs (List.map (function L l -> cp l | _ -> failwith "bad function name") (getf "keyf"))
                     | _ when List.exists is_filter steps -> fchain_path fs
                     | _ when getf "keyf" <> [] ->
                         chain_fun_path ks (List.map (function L l -> cp l | _ -> failwith "bad function name") (getf "keyf"))
